@@ -1863,6 +1863,52 @@ def _vpk_reader(side: dict) -> list[str]:
     return [f'Definition vpk_reader : rexpr := {e}.']
 
 
+def _raw_walk_shape(tr: Tr, cls) -> None:
+    """RawFileSystem.walk_folder: `for D, _, FS in os.walk(self._resolve_path(...)): for F in FS: yield File(self, R, R)` with
+    R = os.path.relpath(os.path.join(D, F), self.path).replace('\\', '/'), whatever the locals are called."""
+    import copy
+    fn = normalise(tr, cls, tr.method(cls, 'walk_folder'))
+    env: dict = {}
+    sub = lambda x: _Subst(env).visit(copy.deepcopy(x))
+    body = _body(fn)
+    while body and isinstance(body[0], (ast.Assign, ast.AnnAssign)):
+        st = body.pop(0)
+        tgt = st.targets[0] if isinstance(st, ast.Assign) and len(st.targets) == 1 else getattr(st, 'target', None)
+        if not isinstance(tgt, ast.Name) or st.value is None:
+            tr.err(st, 'RawFileSystem.walk_folder: unrecognised assignment')
+        env[tgt.id] = sub(st.value)
+    if len(body) != 1 or not isinstance(body[0], ast.For) or body[0].orelse:
+        tr.err(fn, 'RawFileSystem.walk_folder: not one loop over os.walk(...)')
+    outer = body[0]
+    it = sub(outer.iter)
+    if not (isinstance(it, ast.Call) and _dotted(it.func) == 'os.walk' and len(it.args) == 1 and not it.keywords
+            and isinstance(it.args[0], ast.Call) and _dotted(it.args[0].func) == 'self._resolve_path'):
+        tr.err(outer, 'RawFileSystem.walk_folder: does not walk self._resolve_path(folder)')
+    t = outer.target
+    if not (isinstance(t, ast.Tuple) and len(t.elts) == 3 and all(isinstance(x, ast.Name) for x in t.elts)):
+        tr.err(outer, 'RawFileSystem.walk_folder: os.walk loop target is not (dirpath, dirnames, filenames)')
+    D, FS = t.elts[0].id, t.elts[2].id
+    if len(outer.body) != 1 or not isinstance(outer.body[0], ast.For) or outer.body[0].orelse \
+            or _name(outer.body[0].iter) != FS or not isinstance(outer.body[0].target, ast.Name):
+        tr.err(outer, 'RawFileSystem.walk_folder: inner loop is not `for file in filenames`')
+    F = outer.body[0].target.id
+    inner = list(outer.body[0].body)
+    while inner and isinstance(inner[0], (ast.Assign, ast.AnnAssign)):
+        st = inner.pop(0)
+        tgt = st.targets[0] if isinstance(st, ast.Assign) and len(st.targets) == 1 else getattr(st, 'target', None)
+        if not isinstance(tgt, ast.Name) or st.value is None:
+            tr.err(st, 'RawFileSystem.walk_folder: unrecognised assignment')
+        env[tgt.id] = sub(st.value)
+    want = f"os.path.relpath(os.path.join({D}, {F}), self.path).replace('\\\\', '/')"
+    ok = (len(inner) == 1 and isinstance(inner[0], ast.Expr) and isinstance(inner[0].value, ast.Yield)
+          and isinstance(inner[0].value.value, ast.Call) and _name(inner[0].value.value.func) == 'File'
+          and len(inner[0].value.value.args) == 3 and not inner[0].value.value.keywords
+          and _name(inner[0].value.value.args[0]) == 'self'
+          and ast.unparse(sub(inner[0].value.value.args[1])) == want and ast.unparse(sub(inner[0].value.value.args[2])) == want)
+    if not ok:
+        tr.err(outer, f'RawFileSystem.walk_folder: does not yield File(self, R, R) with R = {want}')
+
+
 def _raw(tr: Tr, side: dict) -> list[str]:
     """RawFileSystem: which normalisation of the name / folder reaches `self._resolve_path(...)` in each entry point
     (the directory itself is the OS's business: os.path.isfile / open / os.walk on the resolved path)."""
@@ -1920,11 +1966,7 @@ def _raw(tr: Tr, side: dict) -> list[str]:
     if ostr != o:
         tr.err(cls, f'RawFileSystem: open_str and open_bin normalise differently: {ostr} vs {o}')
     w = resolve_ops('walk_folder', 'folder', 'os.walk')
-    src = ast.unparse(tr.method(cls, 'walk_folder'))
-    for n in ['os.walk(path)', "os.path.relpath(os.path.join(dirpath, file), self.path).replace('\\\\', '/')",
-              'yield File(self, rel_path, rel_path)']:
-        if n not in src:
-            tr.err(cls, f'RawFileSystem.walk_folder: missing {n}')
+    _raw_walk_shape(tr, cls)
     side['raw'] = {'get': g, 'exists': e, 'open': o, 'walk_folder': w,
                    'os': 'os.path.isfile / open / os.walk on self._resolve_path(...); listed names relative to self.path'}
     return ['Definition raw_is_os_exact : bool := true.',
